@@ -16,6 +16,26 @@ class Race(Family):
     shards = 16
     spec = True
 
+    def canon(self, obs):
+        # the worker thread logs "dispatch", the driving thread logs the hold-point markers and the replies of
+        # enabling messages: within a run of such entries the order is decided by the scheduler, not by the token
+        # program (and is immaterial to C12: only a dispatch after a *disabling* reply, or a missing one, counts)
+        import re
+        ents = re.findall(r'\(VS "([^"]*)"\)', obs)
+        def loose(e):
+            return e == "dispatch" or e.startswith("held:ctl:") or e.startswith("not-held:ctl:") or \
+                re.match(r"reply:(enable|reenable|restart):", e) is not None
+        out, block = [], []
+        for e in ents + [None]:
+            if e is not None and loose(e):
+                block.append(e)
+            else:
+                out += [x for x in block if x == "dispatch"] + [x for x in block if x != "dispatch"]
+                block = []
+                if e is not None:
+                    out.append(e)
+        return "|".join(out)
+
     def generate(self, rng, tier):
         out = []
         K, S, J = ("kick", ""), ("settle", ""), ("join", "")
